@@ -50,6 +50,8 @@ def fc_functions():
             sl.sub(f"L12b:{w}->contract", r"\.%s\(\)" % w, f".{w}__contract()")
         if name.endswith("visitLocation"):
             sl.sub("L15:const-auto&->explicit-type", r"const auto& invariant = location\.invariant;", "const expression_t& invariant = location.invariant;", required=True)
+        if name.endswith("visitFrame"):
+            X.lower_range_for(sl, "symbol_t")  # a range-for over the frame, if a refactoring introduced one (rule L7)
         if name.endswith("visitGuard"):
             # recursion is present only in the repaired version: rename when it exists (count logged)
             head, body = sl.text.split("{", 1)
